@@ -1535,3 +1535,94 @@ package memberlist
 // Shutdown closes the transport (which waits for its listeners) under shutdownLock.
 //@ lockwaits Memberlist.shutdownLock: invoke:NodeAwareTransport.Shutdown; call:(*sync.WaitGroup).Wait
 //@ lockwaits TransmitLimitedQueue.mu: dyn:TransmitLimitedQueue.NumNodes; invoke:Broadcast.Finished; invoke:Broadcast.Message; invoke:NamedBroadcast.Name
+
+// ---------------------------------------------------------------------
+// Session 3: functions that earlier sat outside every contract (gvc uncovered)
+// ---------------------------------------------------------------------
+
+// C16 outbound streams: a connection handed out by the label-wrapping transport has had this node's label header written
+// to it (and nothing is handed out when that failed); the legacy WriteTo adds the same header as WriteToAddress.
+//@ ghost $lblDone bool
+//@ func (*labelWrappedTransport).DialAddressTimeout(t, addr, timeout)
+//@   safety [C15,C16,C20]
+//@   requires nn: t != nil && t.NodeAwareTransport != nil
+//@   at call NodeAwareTransport.DialAddressTimeout: set $lblDone := false
+//@   at call AddLabelHeaderToStream: assert own-label [C16]: label == t.label
+//@   at call AddLabelHeaderToStream: set $lblDone := res == nil
+//@   ensures-internal labelled [C16]: result1 == nil ==> $lblDone && result0 != nil
+//@ func (*labelWrappedTransport).DialTimeout(t, addr, timeout)
+//@   safety [C15,C16,C20]
+//@   requires nn: t != nil && t.NodeAwareTransport != nil
+//@   at call NodeAwareTransport.DialTimeout: set $lblDone := false
+//@   at call AddLabelHeaderToStream: assert own-label [C16]: label == t.label
+//@   at call AddLabelHeaderToStream: set $lblDone := res == nil
+//@   ensures-internal labelled [C16]: result1 == nil ==> $lblDone && result0 != nil
+//@ func (*labelWrappedTransport).WriteTo(t, buf, addr)
+//@   safety [C15,C16,C20]
+//@   bytes
+//@   requires nn: t != nil && t.NodeAwareTransport != nil
+//@   at call NodeAwareTransport.WriteTo: assert only-adds-header [C15,C16]: t.label == "" && arg0 == buf || len(t.label) >= 1 && len(t.label) <= 255 && hdrOf(arg0, t.label, buf)
+
+// C12/C16 inbound streams: the connection RemoveLabelHeaderFromStream returns serves the bytes it had read ahead first,
+// in order, each exactly once, before it reads from the underlying connection again.
+//@ func (*peekedConn).Read(c, p)
+//@   safety [C12,C13,C16]
+//@   bytes
+//@   requires nn: c != nil && (len(c.Peeked) == 0 ==> c.Conn != nil) && arr(p) != arr(c.Peeked)     // the caller's buffer is not the read-ahead buffer
+//@   ensures peeked-first [C12,C16]: old(len(c.Peeked)) > 0 ==> result1 == nil && result0 == ite(len(p) < old(len(c.Peeked)), len(p), old(len(c.Peeked))) && len(c.Peeked) == old(len(c.Peeked)) - result0
+//@   ensures delivered [C12,C16]: old(len(c.Peeked)) > 0 ==> (forall i int :: 0 <= i && i < result0 ==> p[i] == old(c.Peeked[i]))
+//@   ensures rest-kept [C12,C16]: old(len(c.Peeked)) > 0 ==> (forall i int :: 0 <= i && i < len(c.Peeked) ==> c.Peeked[i] == old(c.Peeked[result0 + i]))
+
+// C10: memberlist's own broadcasts: one per subject node ("superseded by a newer broadcast about the same subject"),
+// a message that does not change, a completion notice that never blocks the queue.
+//@ func (*memberlistBroadcast).Invalidates(b, other)
+//@   safety [C10,C13,C20]
+//@   requires nn: b != nil && (typeIs(other, *memberlistBroadcast) ==> unbox(other, *memberlistBroadcast) != nil)
+//@   ensures same-subject [C10]: result <==> (typeIs(other, *memberlistBroadcast) && b.node == unbox(other, *memberlistBroadcast).node)
+//@ func (*memberlistBroadcast).Name(b)
+//@   safety [C10,C13,C20]
+//@   requires nn: b != nil
+//@   ensures subject [C10]: result == b.node
+//@ func (*memberlistBroadcast).Message(b)
+//@   safety [C10,C13,C20]
+//@   requires nn: b != nil
+//@   ensures stored [C10]: result == b.msg
+//@ func (*memberlistBroadcast).Finished(b)
+//@   safety [C10,C13,C20]
+//@   requires nn: b != nil
+
+// C20: Create starts the background activity only for a node that has announced itself, and a node whose announcement
+// failed is shut down before the error is returned.
+//@ ghost $saErr int
+//@ ghost $shutCalled bool
+//@ func Create(conf)
+//@   safety [C20]
+//@   panics documented
+//@   requires conf: conf != nil && cfgOK(conf)
+//@   at call newMemberlist: set $shutCalled := false
+//@   at call newMemberlist: set $saErr := 0
+//@   at call (*Memberlist).setAlive: set $saErr := res
+//@   at call (*Memberlist).Shutdown: set $shutCalled := true
+//@   at call (*Memberlist).schedule: assert alive-first [C20]: $saErr == 0
+//@   ensures-internal exclusive [C20]: (result1 == nil) != (result0 == nil)
+//@   ensures-internal no-half-started [C20]: result1 != nil && $saErr != 0 ==> $shutCalled
+
+// the adapter for plain Transports hands on exactly what it is given (C15: nothing is added or re-encoded on the way out)
+//@ func (*shimNodeAwareTransport).WriteToAddress(t, b, addr)
+//@   safety [C15,C20]
+//@   requires nn: t != nil && t.Transport != nil
+//@   at call Transport.WriteTo: assert forwards [C15]: arg0 == b && arg1 == addr.Addr
+//@ func (*shimNodeAwareTransport).DialAddressTimeout(t, addr, timeout)
+//@   safety [C15,C20]
+//@   requires nn: t != nil && t.Transport != nil
+//@ func (*ChannelEventDelegate).NotifyJoin(c, n)
+//@   safety [C07]
+//@   requires nn: c != nil && c.Ch != nil && n != nil
+//@ func (*ChannelEventDelegate).NotifyLeave(c, n)
+//@   safety [C07]
+//@   requires nn: c != nil && c.Ch != nil && n != nil
+//@ func (*ChannelEventDelegate).NotifyUpdate(c, n)
+//@   safety [C07]
+//@   requires nn: c != nil && c.Ch != nil && n != nil
+//@ func ParseCIDRs(v)
+//@   safety [C13,C18]
